@@ -26,7 +26,7 @@ RULE = ("simulated style-based elections (all / disjoint / nested / random style
         "skipped; distinct = hash of (spec, sizes)")
 REQUIRED = ["contract:CVR.consistent_sampling", "draws_checked", "thresholds_checked", "data_prefix_checked",
             "determinism_checked", "vote_independence_checked", "draws_with_skipped_cards", "sizes:ones", "sizes:all",
-            "sizes:one_exhausted", "sizes:random", "draws_with_phantoms_selected", "cards_listing_no_contest_present", "polling_order_checked", "mismatched_sample_refused", "second_draw_same_contest_objects"]
+            "sizes:one_exhausted", "sizes:random", "draws_with_phantoms_selected", "cards_listing_no_contest_present", "polling_order_checked", "mismatched_sample_refused", "second_draw_same_contest_objects", "draw_after_sample_numbers_reassigned"]
 ASSUMPTIONS = ["distinct sample numbers; n_c <= number of cards listing c; dict keys equal contest ids; thresholds for "
                "n_c = 0 are unconstrained"]
 N_CASES = {"quick": 19200, "thorough": 200000}
@@ -199,6 +199,24 @@ def run_case(es, rec):
         rec.count("second_draw_same_contest_objects")
         sim.set_sizes(sizes)
         ok, _idx3 = rec.guard("c07.call:consistent_sampling", sim.draw)
+        if not ok:
+            return
+
+    # ---- the sample numbers of the SAME list are re-assigned (a dry run with another seed, then the real one): the next
+    #      fresh draw must follow the new numbers (the contract compares with the reference again) ----------------------
+    old_nums = [c.sample_num for c in sim.cvr_list]
+    perm = old_nums[:]
+    rng.shuffle(perm)
+    if perm != old_nums:
+        for c, v in zip(sim.cvr_list, perm):
+            c.sample_num = v
+        ok, _ = rec.guard("c07.call:consistent_sampling", sim.draw)
+        if not ok:
+            return
+        rec.count("draw_after_sample_numbers_reassigned")
+        for c, v in zip(sim.cvr_list, old_nums):
+            c.sample_num = v
+        ok, _ = rec.guard("c07.call:consistent_sampling", sim.draw)
         if not ok:
             return
 
